@@ -30,6 +30,9 @@ def run(ctx):
     ok, log = ctx.extract("records", ["lean/KafkaVerif/Gen/RecordConsts.lean"])
     if not ok:
         broken.append({"kind": "obligation", "name": "translator go/extract records", "detail": log[-1500:]})
+    ok, log = ctx.extract("sizefns", ["lean/KafkaVerif/Gen/SizeFns.lean"])
+    if not ok:
+        broken.append({"kind": "obligation", "name": "translator go/extract sizefns", "detail": log[-1500:]})
     ok, log = ctx.extract("recordlayout", ["lean/KafkaVerif/Gen/RecordLayout.lean"])
     if not ok:
         broken.append({"kind": "obligation", "name": "translator go/extract recordlayout", "detail": log[-1500:]})
